@@ -227,7 +227,8 @@ TReset ==
   /\ handed' = {} /\ acc' = <<>> /\ calls' = <<>> /\ setlast' = FALSE
   (* the objects of the old box are abandoned (the harness keeps them alive, so they never   *)
   (* come back); only objects in the pool can be seen again                                   *)
-  /\ LET keep == {i \in DOMAIN pool : pool[i] > 0} \ (Range(recs) \cup removed) IN
+  /\ LET keep == IF Ev.newproc THEN {}     \* recording of another process: its own pool, its own object numbering
+                 ELSE {i \in DOMAIN pool : pool[i] > 0} \ (Range(recs) \cup removed) IN
        /\ pool' = Restrict(pool, keep)
        /\ puts' = Restrict(puts, keep \cap DOMAIN puts)
        /\ gen' = Restrict(gen, keep \cap DOMAIN gen)
